@@ -101,8 +101,9 @@ impl ClientHello {
 
 impl Default for ClientHello {
     fn default() -> Self {
-        const CAPABILITIES: &[Capability] =
-            &[Capability::Base(Base::V1_0), Capability::Base(Base::V1_1)];
+        // Only the end-of-message framing of `:base:1.0` is implemented (no chunked framing), so
+        // `:base:1.1` must not be offered: it would be negotiated with any server that has it.
+        const CAPABILITIES: &[Capability] = &[Capability::Base(Base::V1_0)];
         Self::new(CAPABILITIES)
     }
 }
